@@ -35,7 +35,8 @@ RULE = ("random histories over 2-4 endpoints (real Bridge / Executor shells or b
         "local un-acknowledged callbacks, per-packet drop / duplicate / out-of-order delivery of data frames and Acks, clock ticks around "
         "the resend grace, loop iterations (or single _recv_one / maybe_retry calls on bare endpoints), host removal; every history ends "
         "with max_retries+2 timer rounds under a fair or black-holing network. Plus random frame lists around the legal shapes for "
-        "_recv_one. non-trivial = history with at least one dropped or duplicated packet and at least one retransmission; distinct by content hash")
+        "_recv_one (non-trivial = rejected or swallowed as duplicate). non-trivial history = at least one dropped or duplicated packet and at least "
+        "one retransmission; distinct by content hash. oracle_violations counts the replays of the two known shutdown-handshake findings too")
 ASSUMPTIONS = [
     "zmq PUSH/PULL sockets, zmq.Poller and the time module are replaced by in-process fakes (multipart messages are atomic, as in zmq)",
     "the network adversary drops, duplicates, delays and reorders whole multipart messages; it does not forge or corrupt frames",
@@ -259,9 +260,10 @@ class RealRun:
                     out.append(self.op(op))
                     tail = self.trace[pos:]
                     del self.trace[pos:]
+                    self.trace.extend(t for t in tail if t[0] == "sent")
                     for ad, fr in sim.net.emitted[w0:]:      # frames on the wire (zmq socket seam), before the op's outcome
                         self._tx(fr)
-                    self.trace.extend(tail)
+                    self.trace.extend(t for t in tail if t[0] != "sent")
                 except Exception as ex:  # noqa: BLE001 - unexpected exception of the real code = a result
                     out.append(({"op": "noop"}, {"crash": f"{type(ex).__name__}: {ex}"}))
                     self.trace.append(("crash", op.get("ep", 0), f"{type(ex).__name__}: {ex}"))
